@@ -54,7 +54,14 @@ impl<'tcx> Cx<'tcx> {
                 "name": Json::s(self.tcx.hir_name(hid).to_string()),
                 "id": Json::UInt(hid.local_id.as_u32() as u128),
             },
-            Res::SelfCtor(_) => obj! { "res": Json::s("SelfCtor") },
+            Res::SelfCtor(impl_did) => {
+                let ty = self.tcx.type_of(impl_did).instantiate_identity().skip_norm_wip();
+                let def = match ty.kind() {
+                    rustc_middle::ty::Adt(adt, _) => Json::s(self.tcx.def_path_str(adt.did())),
+                    _ => Json::s(ty.to_string()),
+                };
+                obj! { "res": Json::s("SelfCtor"), "def": def }
+            }
             Res::SelfTyAlias { .. } | Res::SelfTyParam { .. } => obj! { "res": Json::s("SelfTy") },
             Res::PrimTy(p) => obj! { "res": Json::s("PrimTy"), "name": Json::s(p.name_str()) },
             other => obj! { "res": Json::s("Other"), "text": Json::s(format!("{other:?}")) },
